@@ -118,12 +118,16 @@ def r122(ctx, R):
                 right = c05.single_def(f, src(dr))
                 why = '%s' % src(dv)
                 if left is not None and right is not None:
-                    ls = src(C.inline_locals(f, left.value))
-                    rs = src(C.inline_locals(f, right.value))
+                    lv = C.fuse_comprehensions(
+                        C.inline_locals(f, left.value))
+                    rv = C.fuse_comprehensions(
+                        C.inline_locals(f, right.value))
+                    ls = src(lv)
+                    rs = src(rv)
                     ok_l = '.uuid' in ls and '.values()' in ls and not \
-                        _has_filter(C.inline_locals(f, left.value))
+                        _has_filter(lv)
                     ok_r = '.consumer.uuid' in rs and f.params[1] in rs and \
-                        _filter_is_positive(C.inline_locals(f, right.value))
+                        _filter_is_positive(rv)
                     okarg = ok_l and ok_r
                     why += '; %s; %s' % (ls[:50], rs[:60])
         R.ob('R12.2', '_set_allocations:cleanup-argument', okarg,
